@@ -35,6 +35,8 @@ extern "C" void harness(void) {
     double ex = verif_coord(140, 160); double ey = verif_coord(0, 80);
     ConnRef *c1 = new ConnRef(router, ConnEnd(A, 1), ConnEnd(Point(ex, ey))), *c2 = 0;
     bool aAlive = true, c1Alive = true, aProcessed = false;
+    // the history may start from a processed scene or from one whose additions are all still queued
+    if (verif_choice(2)) { router->processTransaction(); aProcessed = true; }
     for (int step = 0; step < NSTEPS; step++) {
         int op = verif_choice(7);
         if (op == 0) { router->processTransaction(); aProcessed = true; }
